@@ -206,12 +206,13 @@ namespace Bump
 open Gen
 
 /-- what the candidate loop of the slow path delivers -/
-structure SlowPost (E : Nat) (held : List Chunk) (M ab sz al : Nat) (rem : Option Nat) (s s' : St)
+structure SlowPost (E : Nat) (held : List Chunk) (M ab sz al : Nat) (rem : Option Nat) (base : Nat) (s s' : St)
     (o : Outcome (Option Chunk)) : Prop where
   a_eq : s'.a = s.a
   mem_eq : s'.mem = s.mem
   cases : (o = .ok none ∧ ∃ refs, s'.evs = s.evs ++ refs ∧ AllRefused refs) ∨ o = .envBad ∨
     (∃ c d n0 refs, o = .ok (some c) ∧ DetailsOK M sz al n0 d ∧ FreshChunk E held M d ab c ∧
+      (∃ k, n0 = base / 2 ^ k) ∧
       fitsUnderLimit rem d = true ∧ AllRefused refs ∧
       s'.evs = s.evs ++ refs ++ [.malloc c.size c.align (some c.data)])
 
@@ -225,7 +226,7 @@ theorem slowLoop_spec {E held M limit ab sz al rem minNew}
     (hM : IsPow2 M) (hMle : M ≤ 16) (hA : IsPow2 al) (hlay : sz + al ≤ 2 ^ 63)
     (hmin : 448 ≤ minNew) (hab : ab ≤ sumSize held) :
     ∀ fuel base (s : St), base < 2 ^ fuel → base ≤ 2 ^ 64 - 96 →
-      SlowPost E held M ab sz al rem s
+      SlowPost E held M ab sz al rem base s
         (slowLoop E held M limit ab sz al rem minNew (fuel + 1) base s).1
         (slowLoop E held M limit ab sz al rem minNew (fuel + 1) base s).2 := by
   intro fuel
@@ -282,19 +283,26 @@ theorem slowLoop_spec {E held M limit ab sz al rem minNew}
               simp only [bindO]
               have r := hrec s1 hhalf hhalfl
               refine ⟨by rw [r.a_eq, sa], by rw [r.mem_eq, sm], ?_⟩
-              rcases r.cases with ⟨h1, refs', h2, h3⟩ | h1 | ⟨c, d', n0, refs', h1, h2, h3, h4, h5, h6⟩
+              rcases r.cases with ⟨h1, refs', h2, h3⟩ | h1 | ⟨c, d', n0, refs', h1, h2, h3, ⟨k, hk⟩, h4, h5, h6⟩
               · exact Or.inl ⟨h1, refs ++ refs', by rw [h2, hev, List.append_assoc], hrf.append h3⟩
               · exact Or.inr (Or.inl h1)
-              · exact Or.inr (Or.inr ⟨c, d', n0, refs ++ refs', h1, h2, h3, h4, hrf.append h5,
+              · exact Or.inr (Or.inr ⟨c, d', n0, refs ++ refs', h1, h2, h3,
+                  ⟨k + 1, by rw [hk, Nat.div_div_eq_div_mul, Nat.pow_succ, Nat.mul_comm]⟩, h4, hrf.append h5,
                   by rw [h6, hev]; simp [List.append_assoc]⟩)
             · subst ho
               simp only [bindO]
               exact ⟨sa, sm, Or.inr (Or.inl rfl)⟩
             · subst ho
               simp only [bindO]
-              exact ⟨sa, sm, Or.inr (Or.inr ⟨c, d, base, [], rfl, hd, hfc, hfit, AllRefused.nil, by simpa using hev⟩)⟩
+              exact ⟨sa, sm, Or.inr (Or.inr ⟨c, d, base, [], rfl, hd, hfc, ⟨0, by simp⟩, hfit, AllRefused.nil, by simpa using hev⟩)⟩
         · simp only [hfit, Bool.false_eq_true, ↓reduceIte]
-          exact hrec s hhalf hhalfl
+          have r := hrec s hhalf hhalfl
+          refine ⟨r.a_eq, r.mem_eq, ?_⟩
+          rcases r.cases with h1 | h1 | ⟨c, d', n0, refs', h1, h2, h3, ⟨k, hk⟩, h4, h5, h6⟩
+          · exact Or.inl h1
+          · exact Or.inr (Or.inl h1)
+          · exact Or.inr (Or.inr ⟨c, d', n0, refs', h1, h2, h3,
+              ⟨k + 1, by rw [hk, Nat.div_div_eq_div_mul, Nat.pow_succ, Nat.mul_comm]⟩, h4, h5, h6⟩)
     · simp only [hc, Bool.false_eq_true, ↓reduceIte]
       exact ⟨rfl, rfl, Or.inl ⟨rfl, [], by simp, AllRefused.nil⟩⟩
 
